@@ -233,6 +233,11 @@ func judge(name string, sc scen, s *vs.Sched, res []callRes, follow callRes, fol
 		} else if pendingCalls != 0 {
 			o.Viol = append(o.Viol, h.V{Sig: "pending-entries-left", What: fmt.Sprintf("%s: %d pending-call entries on %d pooled connections after all calls returned", name, pendingCalls, pendingConns)})
 		}
+		// goroutines must not accumulate: at quiescence, after every call has returned, the only library goroutines
+		// left are the loops of the connections still pooled (two per connection; the mock transport has none)
+		if follow.done && len(s.Hangs) == 0 && len(s.Leaked) > 2*pendingConns {
+			o.Viol = append(o.Viol, h.V{Sig: "goroutines-left|" + strings.SplitN(name, "/", 2)[0] + "|" + condition(sc), What: fmt.Sprintf("%s: %d goroutines are still blocked after every call has returned, with %d connection(s) left in the pool: %s", name, len(s.Leaked), pendingConns, strings.Join(s.Leaked, "; "))})
+		}
 	}
 	return o
 }
@@ -481,6 +486,7 @@ func wsScenario(fault string, callers int, timeout time.Duration, abort bool, qu
 			}
 			wg.Wait()
 			follow, followFails = followUps(client)
+			pendingConns, pendingCalls = client.GetTransport("websocket").(*websocket.Transport).VerifPending()
 		})
 		sc2 := sc
 		sc2.abort = abort && abortArmed
